@@ -43,8 +43,13 @@ def run(prop, tier, seed, seconds):
     blist = builds(tier)
     with cf.ThreadPoolExecutor(D.NPROC) as ex:
         bins = dict(zip(blist, ex.map(lambda b: build_one(*b), blist)))
-    budget = seconds or (20 if tier == 'quick' else 240)
-    count = 400000 if tier == 'quick' else 100000000
+    # a fixed number of cases per build (what is explored depends on (VERIF_SEED, tier) only); the wall clock is a cap
+    nominal = 20 if tier == 'quick' else 240
+    count = 400000 if tier == 'quick' else 5000000
+    if seconds:
+        count = max(1000, int(count * seconds / nominal))
+        nominal = seconds
+    budget = D.CAP_FACTOR * nominal
     results = {}
 
     def work(b):
@@ -130,6 +135,8 @@ def run(prop, tier, seed, seconds):
         'components': {'real': ['/repo/include/amc/memory.hpp in each language standard (the std:: algorithms it aliases in C++17/20 included)'],
                        'stubbed': ['element types (ledger)', 'raw memory (SimHeap with red zones)', 'iterator wrappers of each category']},
         'known_findings_hit': sorted(known_hit),
+        'budget': {'mode': 'fixed number of cases per build; the wall clock is only a cap', 'planned_cases_per_build': count,
+                   'builds_cut_by_time_cap': sorted(t for t, st in per_build.items() if st.get('secs', 0) >= budget)},
     }
     D.write_evidence(prop, 'fault_enumeration', tier, seed, cov,
                      ['cases are sampled by seed; within a case every throw index is enumerated',
